@@ -113,6 +113,8 @@ func (p *poller) addDialer(c *Conn) error {
 			fd,
 			len(p.g.connsUnix),
 		)
+		// the caller of the dial gets the error, not its callback as well.
+		c.onConnected = nil
 		_ = c.closeWithError(err)
 		return err
 	}
@@ -122,6 +124,11 @@ func (p *poller) addDialer(c *Conn) error {
 	err := p.addReadWrite(fd)
 	if err != nil {
 		p.g.connsUnix[fd] = nil
+		// It was never registered: the caller of the dial gets the error
+		// (not its callback as well), and there is no connection to
+		// deliver a close notification for.
+		c.onConnected = nil
+		c.p = nil
 		_ = c.closeWithError(err)
 	}
 	return err
